@@ -440,6 +440,33 @@ fn argument_readback(cx: &mut Cx, t: &Tera, rng: &mut Rng) {
         })*};
     }
     int_target!(u8, u16, u32, u64, u128, usize, i8, i16, i32, i64, i128, isize);
+    // ---- the accessors of Value itself (`as_i64`, `as_u64`, `as_i128`, `as_u128`, `as_f64`): the exact number when it fits
+    //      the type asked for (for `as_f64`: when the float is exactly that integer), nothing otherwise — never another number
+    if let Exact::Int(neg, mag) = exact {
+        let show = |neg: bool, mag: u128| format!("{}{mag}", if neg && mag != 0 { "-" } else { "" });
+        let want = show(neg, mag);
+        let got: [(&str, Option<String>, bool); 4] = [
+            ("as_i64", val.as_i64().map(|x| x.to_string()), if neg { mag <= 1u128 << 63 } else { mag <= i64::MAX as u128 }),
+            ("as_u64", val.as_u64().map(|x| x.to_string()), !neg && mag <= u64::MAX as u128 || mag == 0),
+            ("as_i128", val.as_i128().map(|x| x.to_string()), if neg { mag <= 1u128 << 127 } else { mag <= i128::MAX as u128 }),
+            ("as_u128", val.as_u128().map(|x| x.to_string()), !neg || mag == 0),
+        ];
+        for (name, g, fits) in got {
+            cx.count("argument_readbacks", 1);
+            cx.cell(format!("accessor|{given_as}|{name}|{}", if fits { "fits" } else { "does-not-fit" }));
+            let ok = match &g { Some(x) => fits && *x == want, None => !fits };
+            if !ok {
+                cx.violation(&format!("C19/argument-altered/{name}"), format!("{exact:?} (given as {given_as}): Value::{name}() gave {g:?}, exactly it is {want}{}", if fits { "" } else { " and does not fit" }), json!({"given_as": given_as, "value": format!("{exact:?}"), "accessor": name}));
+            }
+        }
+        if let Some(f) = val.as_f64() {
+            // exact iff converting back gives the same integer
+            let back_ok = f.is_finite() && f.trunc() == f && f.abs() < 3.402823669209385e38 && (f.abs() as u128) == mag && (f < 0.0) == (neg && mag != 0);
+            if !back_ok {
+                cx.violation("C19/argument-altered/as_f64", format!("{exact:?} (given as {given_as}): Value::as_f64() gave {f:?}, which is not that integer"), json!({"given_as": given_as, "value": format!("{exact:?}")}));
+            }
+        }
+    }
     // ---- float targets: the nearest float; f32 refuses finite numbers beyond its range
     let as_f64: f64 = match exact { Exact::Int(neg, mag) => if neg { -(mag as f64) } else { mag as f64 }, Exact::Float(f) => f };
     let as_f32: Option<f32> = match exact {
